@@ -755,6 +755,16 @@ namespace cds { namespace algo {
                 return true;
             }
 
+            // Checks if pRec is linked to the publication list. Called only by combiner thread
+            bool is_published( publication_record const * pRec ) const
+            {
+                for ( publication_record const * p = m_pHead->pNext.load( memory_model::memory_order_acquire ); p; p = p->pNext.load( memory_model::memory_order_acquire )) {
+                    if ( p == pRec )
+                        return true;
+                }
+                return false;
+            }
+
             void compact_list( unsigned int nCurAge )
             {
                 // Compacts publication list
@@ -798,7 +808,9 @@ namespace cds { namespace algo {
                 // Iterate over allocated list to find removed records
                 pPrev = m_pAllocatedHead;
                 for ( publication_record * p = pPrev->pNextAllocated.load( memory_model::memory_order_acquire ); p; ) {
-                    if ( p->nState.load( memory_model::memory_order_relaxed ) == removed ) {
+                    // The owner of a record may exit (state "removed") after the first loop has passed the record:
+                    // such record is still linked to the publication list and must be kept till the next compacting
+                    if ( p->nState.load( memory_model::memory_order_relaxed ) == removed && !is_published( p )) {
                         publication_record * pNext = p->pNextAllocated.load( memory_model::memory_order_relaxed );
                         if ( pPrev->pNextAllocated.compare_exchange_strong( p, pNext, memory_model::memory_order_acquire, atomics::memory_order_relaxed )) {
                             free_publication_record( static_cast<publication_record_type *>( p ));
